@@ -87,33 +87,33 @@ Record state := {
   counter : list (pair * Z);         (* activeNotesCounter, keyed (note, channel); absent = 0 *)
   actionT : list action;             (* actionTracker (set) *)
   ccZ : list (N * bool);             (* ccZeroed *)
-  keyT : list N;                     (* keyTracker (set) *)
-  ext : list pair                    (* externalNoteTracker as a set of (note, channel) *)
+  keyT : list N                      (* keyTracker (set) *)
 }.
+(* The MIDI-input tracker (externalNoteTracker) is written by Panic and by the MIDI-input goroutine and read only by
+   the LED loop; it is not part of the playing state and lives in Model/Led.v. *)
 
 Definition init (c : config) : state := {|
   octave := wrap8 (d_octave c); semitone := wrap8 (d_semitone c);
   channel := u8 (d_channel c - 1); velocity := u8 (d_velocity c);
   mapidx := d_mapping c; learning := false;
-  noteT := []; analogT := []; counter := []; actionT := []; ccZ := []; keyT := []; ext := [] |}.
+  noteT := []; analogT := []; counter := []; actionT := []; ccZ := []; keyT := [] |}.
 
 Record out := { midi : list msg; sigs : nat }.
 Definition silent : out := {| midi := []; sigs := 0 |}.
 Definition emit (l : list msg) : out := {| midi := l; sigs := 0 |}.
 
 (* setters *)
-Definition set_octave v s := {| octave := v; semitone := semitone s; channel := channel s; velocity := velocity s; mapidx := mapidx s; learning := learning s; noteT := noteT s; analogT := analogT s; counter := counter s; actionT := actionT s; ccZ := ccZ s; keyT := keyT s; ext := ext s |}.
-Definition set_semitone v s := {| octave := octave s; semitone := v; channel := channel s; velocity := velocity s; mapidx := mapidx s; learning := learning s; noteT := noteT s; analogT := analogT s; counter := counter s; actionT := actionT s; ccZ := ccZ s; keyT := keyT s; ext := ext s |}.
-Definition set_channel v s := {| octave := octave s; semitone := semitone s; channel := v; velocity := velocity s; mapidx := mapidx s; learning := learning s; noteT := noteT s; analogT := analogT s; counter := counter s; actionT := actionT s; ccZ := ccZ s; keyT := keyT s; ext := ext s |}.
-Definition set_mapidx v s := {| octave := octave s; semitone := semitone s; channel := channel s; velocity := velocity s; mapidx := v; learning := learning s; noteT := noteT s; analogT := analogT s; counter := counter s; actionT := actionT s; ccZ := ccZ s; keyT := keyT s; ext := ext s |}.
-Definition set_learning v s := {| octave := octave s; semitone := semitone s; channel := channel s; velocity := velocity s; mapidx := mapidx s; learning := v; noteT := noteT s; analogT := analogT s; counter := counter s; actionT := actionT s; ccZ := ccZ s; keyT := keyT s; ext := ext s |}.
-Definition set_noteT v s := {| octave := octave s; semitone := semitone s; channel := channel s; velocity := velocity s; mapidx := mapidx s; learning := learning s; noteT := v; analogT := analogT s; counter := counter s; actionT := actionT s; ccZ := ccZ s; keyT := keyT s; ext := ext s |}.
-Definition set_analogT v s := {| octave := octave s; semitone := semitone s; channel := channel s; velocity := velocity s; mapidx := mapidx s; learning := learning s; noteT := noteT s; analogT := v; counter := counter s; actionT := actionT s; ccZ := ccZ s; keyT := keyT s; ext := ext s |}.
-Definition set_counter v s := {| octave := octave s; semitone := semitone s; channel := channel s; velocity := velocity s; mapidx := mapidx s; learning := learning s; noteT := noteT s; analogT := analogT s; counter := v; actionT := actionT s; ccZ := ccZ s; keyT := keyT s; ext := ext s |}.
-Definition set_actionT v s := {| octave := octave s; semitone := semitone s; channel := channel s; velocity := velocity s; mapidx := mapidx s; learning := learning s; noteT := noteT s; analogT := analogT s; counter := counter s; actionT := v; ccZ := ccZ s; keyT := keyT s; ext := ext s |}.
-Definition set_ccZ v s := {| octave := octave s; semitone := semitone s; channel := channel s; velocity := velocity s; mapidx := mapidx s; learning := learning s; noteT := noteT s; analogT := analogT s; counter := counter s; actionT := actionT s; ccZ := v; keyT := keyT s; ext := ext s |}.
-Definition set_keyT v s := {| octave := octave s; semitone := semitone s; channel := channel s; velocity := velocity s; mapidx := mapidx s; learning := learning s; noteT := noteT s; analogT := analogT s; counter := counter s; actionT := actionT s; ccZ := ccZ s; keyT := v; ext := ext s |}.
-Definition set_ext v s := {| octave := octave s; semitone := semitone s; channel := channel s; velocity := velocity s; mapidx := mapidx s; learning := learning s; noteT := noteT s; analogT := analogT s; counter := counter s; actionT := actionT s; ccZ := ccZ s; keyT := keyT s; ext := v |}.
+Definition set_octave v s := {| octave := v; semitone := semitone s; channel := channel s; velocity := velocity s; mapidx := mapidx s; learning := learning s; noteT := noteT s; analogT := analogT s; counter := counter s; actionT := actionT s; ccZ := ccZ s; keyT := keyT s |}.
+Definition set_semitone v s := {| octave := octave s; semitone := v; channel := channel s; velocity := velocity s; mapidx := mapidx s; learning := learning s; noteT := noteT s; analogT := analogT s; counter := counter s; actionT := actionT s; ccZ := ccZ s; keyT := keyT s |}.
+Definition set_channel v s := {| octave := octave s; semitone := semitone s; channel := v; velocity := velocity s; mapidx := mapidx s; learning := learning s; noteT := noteT s; analogT := analogT s; counter := counter s; actionT := actionT s; ccZ := ccZ s; keyT := keyT s |}.
+Definition set_mapidx v s := {| octave := octave s; semitone := semitone s; channel := channel s; velocity := velocity s; mapidx := v; learning := learning s; noteT := noteT s; analogT := analogT s; counter := counter s; actionT := actionT s; ccZ := ccZ s; keyT := keyT s |}.
+Definition set_learning v s := {| octave := octave s; semitone := semitone s; channel := channel s; velocity := velocity s; mapidx := mapidx s; learning := v; noteT := noteT s; analogT := analogT s; counter := counter s; actionT := actionT s; ccZ := ccZ s; keyT := keyT s |}.
+Definition set_noteT v s := {| octave := octave s; semitone := semitone s; channel := channel s; velocity := velocity s; mapidx := mapidx s; learning := learning s; noteT := v; analogT := analogT s; counter := counter s; actionT := actionT s; ccZ := ccZ s; keyT := keyT s |}.
+Definition set_analogT v s := {| octave := octave s; semitone := semitone s; channel := channel s; velocity := velocity s; mapidx := mapidx s; learning := learning s; noteT := noteT s; analogT := v; counter := counter s; actionT := actionT s; ccZ := ccZ s; keyT := keyT s |}.
+Definition set_counter v s := {| octave := octave s; semitone := semitone s; channel := channel s; velocity := velocity s; mapidx := mapidx s; learning := learning s; noteT := noteT s; analogT := analogT s; counter := v; actionT := actionT s; ccZ := ccZ s; keyT := keyT s |}.
+Definition set_actionT v s := {| octave := octave s; semitone := semitone s; channel := channel s; velocity := velocity s; mapidx := mapidx s; learning := learning s; noteT := noteT s; analogT := analogT s; counter := counter s; actionT := v; ccZ := ccZ s; keyT := keyT s |}.
+Definition set_ccZ v s := {| octave := octave s; semitone := semitone s; channel := channel s; velocity := velocity s; mapidx := mapidx s; learning := learning s; noteT := noteT s; analogT := analogT s; counter := counter s; actionT := actionT s; ccZ := v; keyT := keyT s |}.
+Definition set_keyT v s := {| octave := octave s; semitone := semitone s; channel := channel s; velocity := velocity s; mapidx := mapidx s; learning := learning s; noteT := noteT s; analogT := analogT s; counter := counter s; actionT := actionT s; ccZ := ccZ s; keyT := v |}.
 
 (* ------------------------------------------------------------------ lookups *)
 Definition cur_mapping (c : config) (s : state) : mapping := nth (mapidx s) (mappings c) empty_mapping.
@@ -143,7 +143,7 @@ Definition panic_burst (ch : N) : list msg :=
 
 Definition invoke_press (c : config) (a : action) (s : state) : state * list msg :=
   match a with
-  | Panic => (set_ext [] s, panic_burst (channel s))
+  | Panic => (s, panic_burst (channel s))   (* also clears the MIDI-input tracker: Model/Led.v *)
   | MappingUp => (if Nat.eqb (mapidx s) (length (mappings c) - 1) then s else set_mapidx (S (mapidx s)) s, [])
   | MappingDown => (if Nat.eqb (mapidx s) 0 then s else set_mapidx (pred (mapidx s)) s, [])
   | OctaveUp => (set_octave (wrap8 (octave s + 1)) s, [])
@@ -347,32 +347,6 @@ Definition handle_sample (c : config) (s : state) (sa : sample) : state * out :=
       | AActionSim => handle_actionsim c s sa
       | AUnknown => (s, [])
       end in (s', emit m).
-
-(* ------------------------------------------------------------------ MIDI input tracking (events.go:370-392) *)
-(* Event.Type(): channel messages are reduced to their status nibble *)
-Definition ev_type (e : msg) : N :=
-  match e with
-  | [] => 0
-  | b :: _ => if negb (N.land b 240 =? 240) && negb (N.land b 128 =? 0) then N.land b 240 else b
-  end.
-
-(* [None]: e[1] is read on a message too short to have it (index out of range in Go) *)
-Definition midi_in (s : state) (e : msg) : option state :=
-  let ty := ev_type e in
-  if (ty =? NOTE_ON) || (ty =? NOTE_OFF) then
-    match e with
-    | b :: n :: r =>
-        let ch := N.land b 15 in
-        if ty =? NOTE_ON then
-          (* a Note On with velocity 0 is a Note Off (after the fix) *)
-          match r with
-          | 0 :: _ => Some (set_ext (srem pair_eqb (n, ch) (ext s)) s)
-          | _ => Some (set_ext (sadd pair_eqb (n, ch) (ext s)) s)
-          end
-        else Some (set_ext (srem pair_eqb (n, ch) (ext s)) s)
-    | _ => None
-    end
-  else Some s.
 
 (* ------------------------------------------------------------------ events, runs, clean-up *)
 Inductive ev :=
